@@ -40,7 +40,18 @@ class C20(Config):
                    "per-pool transaction totals <= u64::MAX and total work <= U256::MAX (sums_fit; outside it combine "
                    "panics or wraps: known finding C20-combine-overflow)",
                    "array length < 2^32 (u32 indices)"]
-    partial_clauses = []
+    partial_clauses = [
+        "partial views (Tree::new(length, peaks, extra) with several peaks, then an operation): correspondence + "
+        "from-scratch property check only (every tree size 1..33 quick / 1..130 thorough, all three versions); "
+        "no partial_view_refines theorem",
+        "node/entry canonicity (accepted bytes = canonical encoding) is a theorem for CompactSize only; for whole "
+        "node/entry records it is evaluated by prop_case on mutated encodings, the theorem proved is the round trip",
+        "subtree commitments: H is an arbitrary function in the theorems; BLAKE2b itself is checked per recorded "
+        "triple with hashlib, not modelled",
+        "no bridge theorem run_case => prop_case; prop_case is evaluated independently on every case (long "
+        "histories: from-scratch rebuild at a deterministic subset of steps, returned links/counts/lengths at all)",
+        "release profile (wrapping counters) is modelled (oc = false) and exercised in the thorough tier only",
+    ]
 
     @staticmethod
     def gen():
